@@ -143,14 +143,18 @@ CHECKS = {
                      "pivots for dependent unknowns (defect = n - rank) and L D L' = N, that solve() and the sparse inverse satisfy N x = r and NQN = N. "
                      "The block-diagonal Cholesky is checked through the homogenised normal equations of C01/C02 (incl. wide band blocks).",
                 note="sizes up to 4x4; values are small integers so that rank is numerically unambiguous", ref="8/C16"),
-    "C19": dict(cat="exploration", technique="TLC-generated ECEF vector networks run through gama-g3 (4 algorithms, permuted records) and their project equations through Adj",
+    "C19": dict(cat="exploration", technique="TLC-generated ECEF networks run through gama-g3 (4 algorithms, permuted records) and their project equations through Adj",
                 text="G3Session.tla builds consistent global networks: a place on the ellipsoid (equator, mid latitude, near the pole, southern hemisphere, "
-                     "antimeridian), 3..5 points with integer ECEF offsets, a spanning tree plus redundant vectors, fixed (1 or 2 points) or all-constrained "
-                     "datum, three covariance variants, zero or millimetre noise, and a permutation of the records; it computes parameters, equations, "
-                     "defect and redundancy. gama-g3 must reproduce the generating coordinates for noise 0, report the specified statistics, and give equal "
-                     "results for envelope / cholesky / gso / svd and for permuted input; its --project-equations dump, read by gama's DataParser and "
-                     "adjusted by Adj with the four algorithms (harness/drv_adjxml), must give the same corrections and sum of squares.",
-                note="only vector observations and xyz points; the g3 parser grammar, heights, distances and the results reader are not modelled", ref="8/C19"),
+                     "antimeridian), 3..5 points with integer ECEF offsets, a spanning tree of GNSS vectors plus redundant ones, optional distances, "
+                     "ellipsoidal heights, height differences, zenith angles, horizontal angles (below and above half a circle) and observed "
+                     "coordinates, seven status patterns of the n,e / u components (fixed, free, constrained, mixed per point), three covariance "
+                     "variants, zero or millimetre noise, given coordinates of the adjusted components displaced by up to 3 cm, and a permutation of "
+                     "the records; it computes parameters, equations, defect and redundancy. gama-g3 must reproduce the generating coordinates for "
+                     "noise 0 (2e-6 m), report the specified statistics, and give equal results for envelope / cholesky / gso / svd and for permuted "
+                     "input; its --project-equations dump, read by gama's DataParser and adjusted by Adj with the four algorithms "
+                     "(harness/drv_adjxml), must give the same corrections and sum of squares.",
+                note="azimuths are excluded (gama-g3's parser ends with an internal error on <azimuth>); instrument heights, the g3 parser grammar "
+                     "and the results reader are not modelled", ref="8/C19, 14"),
 }
 
 NOT_APPLICABLE = []
